@@ -171,6 +171,20 @@ def stale_record_touched(b, l, r):
     return bool(rb) and (_stale_records(l) != rb or _stale_records(r) != rb)
 
 
+def cell_type_changed(b, l, r):
+    """Input class of F28: a side holds a cell of base (same id, or same
+    position when there are no ids) under another cell_type."""
+    for side in (l, r):
+        for i, c in enumerate(b.get("cells", [])):
+            if "id" in c:
+                twins = [x for x in side.get("cells", []) if x.get("id") == c["id"]]
+            else:
+                twins = side.get("cells", [])[i:i + 1] if len(side.get("cells", [])) == len(b["cells"]) else []
+            if any(x["cell_type"] != c["cell_type"] for x in twins):
+                return True
+    return False
+
+
 def mixed_id_versions(b, l, r):
     """Input class of F21: one input declares format 4.5 while another one is
     older and has cells without ids."""
@@ -264,6 +278,8 @@ def merge_obligations(E, b, l, r, args, tool, props, known, info=None):
             fid = common.match_schema_finding(known, e, E.instance(merged))
             if fid == "F21" and not mixed_id_versions(b, l, r):
                 fid = None      # outside the recorded input class
+            if fid == "F28" and not cell_type_changed(b, l, r):
+                fid = None
             if fid:
                 E.known(fid)
             else:
@@ -444,6 +460,9 @@ CONFLICT_SCRIPTS = [
     (("codeA",), ("md_empty_add",), ("md_empty_set",), {}, {}),  # empty-string metadata values
     (("codeA0",), ("out_add",), ("out_add2",), {}, {}),          # conflicting additions to an empty outputs list
     (("codeJvnd",), ("out_edit",), ("out_edit2",), {}, {}),      # vendor JSON payload edited on both sides
+    (("md",), ("to_code",), ("to_code",), {}, {}),               # both sides turn a markdown cell into a code cell
+    (("codeQ",), ("src1",), ("src2",), {}, {}),                  # insert before a line + patch of that line vs another insert
+    (("codeE",), ("src1",), ("src2",), {}, {}),                  # empty base source filled in on both sides
 ]
 
 
@@ -457,6 +476,7 @@ ACTS_TRANSIENT = ["keep", "md_del_collapsed", "md_collapsed", "md_scrolled_true"
                   "del", "src1", "collapsed_src", "md_src"]
 ACTS_INTKEYS = ["keep", "att_edit_1", "att_edit", "md_edit_2024", "md_edit_note", "src1"]
 ACTS_STALE = ["keep", "unstale_edit", "md_edit", "att_edit", "src1"]
+ACTS_TYPE_MD = ["keep", "to_code", "to_code_src", "src1", "md_edit", "att_edit"]
 ACTS_TYPE = ["keep", "to_md", "rerun", "out_edit", "ec", "src1", "md_edit"]
 ACTS_NUMS = ["keep", "nums_add", "nums_append", "nums_replace"]
 ACTS_NUL = ["keep", "src1", "src2", "del"]
@@ -508,6 +528,7 @@ def scenario_shards(tier, tool, kw):
     add("whitespace", templates=("codeA",), acts="ACTS_WS", ins=(0, 0), ids=(1,))
     add("stale-att", templates=("mdStale",), acts="ACTS_STALE", ins=(0, 0))
     add("type", templates=("codeA",), acts="ACTS_TYPE", ins=(0, 0), ids=(1,))
+    add("type-md", templates=("md",), acts="ACTS_TYPE_MD", ins=(0, 0), ids=(1,))
     add("nums", templates=("codeNums",), acts="ACTS_NUMS", ins=(0, 0))
     add("nul", templates=("codeNul",), acts="ACTS_NUL", ins=(0, 0))
     add("sameid", templates=(), acts="ACTS_KEEP", ins=(1, 1), ids=(1,), sameid=True)
